@@ -804,9 +804,14 @@ func (c *c15Case) runRootSelective() {
 		t.Cover("run:root.SelectiveCar.Prepare+Dump")
 		sc := carv1.NewSelectiveCar(bg, store, dags, opts...)
 		var cbs []carv1.Block
+		var cbs2 []carv1.Block // a second callback: every callback sees every block with the same, true coordinates
 		prep, err := sc.Prepare(func(b carv1.Block) error {
 			b.Data = append([]byte{}, b.Data...)
 			cbs = append(cbs, b)
+			return nil
+		}, func(b carv1.Block) error {
+			b.Data = append([]byte{}, b.Data...)
+			cbs2 = append(cbs2, b)
 			return nil
 		})
 		lg := log.take()
@@ -842,7 +847,7 @@ func (c *c15Case) runRootSelective() {
 		}
 		if _, pok := c.checkPayload(api, class, buf.Bytes(), roots, lg); !pok {
 			good = false
-		} else if !c.checkCallbacks(api, class, buf.Bytes(), cbs, lg) {
+		} else if !c.checkCallbacks(api, class, buf.Bytes(), cbs, lg) || !c.checkCallbacks(api+"(second callback)", class, buf.Bytes(), cbs2, lg) {
 			good = false
 		}
 		if prep.Size() != uint64(buf.Len()) {
